@@ -617,6 +617,8 @@ val drop_body : tcfg -> nat -> unit m
 
 val drop_vec : tcfg -> nat -> unit m
 
+val is_empty : nat -> bool m
+
 val append0 : tcfg -> (z -> z option) -> nat -> nat -> unit m
 
 val slot_swap : tcfg -> eptr -> eptr -> unit m
